@@ -10,7 +10,8 @@ value and argument is a token `=<text>` (so the empty string is `=`).
 mode `map` (kinds = key kind + value kind, each `s` (string) or `i` (int64), e.g. `ss`, `is`, `si`):
   `run|kinds|=dflt|state|ops`                     -> `state|emitted|cbs`
   `explain|kinds|=dflt|state|ops|state'|cbs'`     -> `ok i j …|emitted`  or  `none`
-       (a permutation of `ops` whose execution from `state` ends in exactly `state'` and logs exactly `cbs'`)
+       (a permutation of `ops` whose execution from `state` ends in exactly `state'` and logs exactly `cbs'`;
+        an op item may start with `@<source>`: items of one source keep their listed order — per-sender FIFO)
   `q|kinds|state|size` / `count =k` / `gatheru =k…` / `gatherm =k…` / `topk n`  -> answer
   state: `=k =v;…`   ops: `ins =k =v` `insm =k =v` `iim =k =v` `vis =k n =a` `visg =k n =a`
   `vie =k n =a` `iev =k =v n =a` `red =k =v n` `era =k`
@@ -34,17 +35,22 @@ def joinItems (xs : List String) : String := ";".intercalate xs
 def modulus : Nat := 1000003
 def toN (s : String) : Nat := (s.toInt?.getD 0).toNat
 def ofN (n : Nat) : String := toString (n % modulus)
+/-- value kind `u` (uint64_t): arithmetic wraps modulo 2^64 -/
+def ofU (n : Nat) : String := toString (n % 18446744073709551616)
 
 /-- derived key a callback addresses -/
 def dk (kkind : Char) (k : String) : String :=
-  if kkind = 'i' then toString (k.toInt?.getD 0 + 1000000) else k ++ "~"
+  if kkind = 'i' then toString (k.toInt?.getD 0 + 1000000)
+  else if kkind = 'u' then ofU (toN k + 1000000)
+  else k ++ "~"
 
 def smax (a b : String) : String := if a < b then b else a
 def smin (a b : String) : String := if b < a then b else a
 
 /-! the concrete user lambdas the harness (harness/mapset.cpp) registers — same table there -/
 def mapUser (kk vk : Char) : MapOps.User String String String :=
-  if vk = 'i' then
+  if vk = 'i' || vk = 'u' then
+    let ofN := if vk = 'u' then ofU else ofN
     { visitor := fun vis k v a => match vis with
         | 1 => (ofN (3 * toN v + toN a), [])
         | 2 => (v, [.reduce (dk kk k) v 1])
@@ -93,8 +99,10 @@ def setUser (kk : Char) : SetOps.User String String :=
     consume := fun vis k => match vis with
       -- producers: two generations of fresh keys
       | 1 => if kk = 'i' then (if (k.toInt?.getD 0) < 5000000 then [.insert (toString (k.toInt?.getD 0 + 3000000))] else [])
+             else if kk = 'u' then (if toN k % 4 < 2 then [.insert (ofU (toN k + 1))] else [])
              else (if k.endsWith "^^" then [] else [.insert (k ++ "^")])
       | 6 => if kk = 'i' then (if (k.toInt?.getD 0) < 5000000 then [.insertMulti (toString (k.toInt?.getD 0 + 3000000))] else [])
+             else if kk = 'u' then (if toN k % 4 < 2 then [.insertMulti (ofU (toN k + 1))] else [])
              else (if k.endsWith "^^" then [] else [.insertMulti (k ++ "^")])
       | _ => [] }
 
@@ -150,21 +158,39 @@ def pickEach {α : Type} : List α → List (α × List α)
   | [] => []
   | x :: r => (x, r) :: (pickEach r).map (fun p => (p.1, x :: p.2))
 
+/-- an item of `explain` may start with `@<source>`: operations with the same source (one issuing rank, in program
+order) reach an owner in that order (per-sender FIFO of the messaging layer), so only interleavings that keep the
+listed order within every source are searched.  No tag = unconstrained. -/
+def splitSrc (ws : List String) : String × List String :=
+  match ws with
+  | w :: r => if w.startsWith "@" then (w, r) else ("", ws)
+  | [] => ("", [])
+
+/-- choices for the next operation: the first remaining one of every source (and every untagged one) -/
+def pickFifo {α : Type} : List (String × α) → List String → List ((String × α) × List (String × α))
+  | [], _ => []
+  | x :: r, seen =>
+    let tl := (pickFifo r (if x.1 = "" then seen else x.1 :: seen)).map (fun p => (p.1, x :: p.2))
+    if x.1 ≠ "" && seen.contains x.1 then tl else (x, r) :: tl
+
 def searchOrder {σ Op Cb : Type} (c : Dist.Container σ Op Cb) (good : Dist.Out σ Op Cb → Bool) :
-    Nat → σ → List (Nat × Op) → List Nat → List Op → List Cb → Option (List Nat × List Op)
+    Nat → σ → List (String × Nat × Op) → List Nat → List Op → List Cb → Option (List Nat × List Op)
   | 0, _, _, _, _, _ => none
   | fuel + 1, s, rest, chosen, em, cbs =>
     match rest with
     | [] => if good ⟨s, em, cbs⟩ then some (chosen.reverse, em) else none
     | _ =>
-      (pickEach rest).firstM (fun p =>
-        let r := c.apply s p.1.2
-        searchOrder c good fuel r.1 p.2 (p.1.1 :: chosen) (em ++ r.2.1) (cbs ++ r.2.2))
+      (pickFifo rest []).firstM (fun p =>
+        let r := c.apply s p.1.2.2
+        searchOrder c good fuel r.1 p.2 (p.1.2.1 :: chosen) (em ++ r.2.1) (cbs ++ r.2.2))
+
+def tagOps {Op : Type} (srcs : List String) (os : List Op) : List (String × Nat × Op) :=
+  (srcs.zip ((List.range os.length).zip os))
 
 def keyLe (kind : Char) (a b : String) : Bool :=
-  if kind = 'i' then decide (a.toInt?.getD 0 ≤ b.toInt?.getD 0) else decide (a ≤ b)
+  if kind = 'i' || kind = 'u' then decide (a.toInt?.getD 0 ≤ b.toInt?.getD 0) else decide (a ≤ b)
 def keyLt (kind : Char) (a b : String) : Bool :=
-  if kind = 'i' then decide (a.toInt?.getD 0 < b.toInt?.getD 0) else decide (a < b)
+  if kind = 'i' || kind = 'u' then decide (a.toInt?.getD 0 < b.toInt?.getD 0) else decide (a < b)
 
 /-- comparator the harness passes to `topk`: larger value first, ties by smaller key -/
 def topkLe (kk vk : Char) (a b : String × String) : Bool :=
@@ -180,12 +206,13 @@ def handleMap (line : String) : String :=
       s!"{showPairs o.state}|{joinItems (o.emitted.map showMapOp)}|{joinItems (o.cbs.map showMapCb)}"
     | _, _, _ => "bad-op"
   | ["explain", kinds, d, st, ops, st', cbs'] =>
-    match unq d, parsePairs st, (items ops).mapM parseMapOp, parsePairs st', (items cbs').mapM parseMapCb with
+    let its := (items ops).map splitSrc
+    match unq d, parsePairs st, (its.map (·.2)).mapM parseMapOp, parsePairs st', (items cbs').mapM parseMapCb with
     | some d, some m, some os, some m', some cs =>
       let (kk, vk) := kindsOf kinds
       let c := MapOps.container (mapUser kk vk) d
       let good := fun (o : Dist.Out _ _ _) => decide (o.state = m') && decide (o.cbs = cs)
-      match searchOrder c good (os.length + 1) m ((List.range os.length).zip os) [] [] [] with
+      match searchOrder c good (os.length + 1) m (tagOps (its.map (·.1)) os) [] [] [] with
       | some (ord, em) => s!"ok {joinNats ord}|{joinItems (em.map showMapOp)}"
       | none => "none"
     | _, _, _, _, _ => "bad-op"
@@ -259,12 +286,13 @@ def handleSet (line : String) : String :=
       s!"{showKeys o.state}|{joinItems (o.emitted.map showSetOp)}|{joinItems (o.cbs.map showSetCb)}"
     | _, _ => "bad-op"
   | ["explain", kind, st, ops, st', cbs'] =>
-    match parseKeys st, (items ops).mapM parseSetOp, parseKeys st', (items cbs').mapM parseSetCb with
+    let its := (items ops).map splitSrc
+    match parseKeys st, (its.map (·.2)).mapM parseSetOp, parseKeys st', (items cbs').mapM parseSetCb with
     | some s, some os, some s', some cs =>
       let c := SetOps.container (setUser (kindsOf kind).1)
       let tgt := sortKeys s'
       let good := fun (o : Dist.Out _ _ _) => decide (sortKeys o.state = tgt) && decide (o.cbs = cs)
-      match searchOrder c good (os.length + 1) s ((List.range os.length).zip os) [] [] [] with
+      match searchOrder c good (os.length + 1) s (tagOps (its.map (·.1)) os) [] [] [] with
       | some (ord, em) => s!"ok {joinNats ord}|{joinItems (em.map showSetOp)}"
       | none => "none"
     | _, _, _, _ => "bad-op"
